@@ -106,6 +106,18 @@ class LP(FP):
                 self.eat("op", ")")
                 return f"({ctor} {e})"
             return ctor
+        if k == "id" and v == "std::usize::MAX":
+            self.eat()
+            return "18446744073709551615"
+        if k == "id" and v == "mask" and self.peek(1) == ("op", "("):
+            self.eat(); self.eat()
+            x = self.expr(); self.eat("op", ")")
+            return f"(mask_{self.suffix} {x})"
+        if k == "id" and v == "BITSPLITS" and self.peek(1) == ("idx", None):
+            self.eat(); self.eat("idx")
+            e = self.expr()
+            self.eat("idxend")
+            return f"(List.getD bitsplits{self.suffix} {e} [])"
         if k == "id" and self.peek(1) == ("idx", None):
             self.eat()
             self.eat("idx")
@@ -165,6 +177,9 @@ class SP:
             if self.at("mut"):
                 p.eat()
             x = p.eat("id")
+            if x.endswith(":"):
+                x = x[:-1]
+                p.eat("id")          # the type annotation
             p.eat("op", "=")
             if self.at("p_remove") and p.peek(1) == ("op", "("):
                 p.eat(); p.eat()
@@ -216,6 +231,13 @@ class SP:
             p.eat("op", ")")
             p.eat("op", ";")
             return ("swap", arr, i, x)
+        if self.at("for") and p.peek(2) == ("id", "in") and p.peek(3)[0] == "id" and p.peek(4) == ("op", ".") and p.peek(5) == ("id", "iter"):
+            # `for b in xs.iter().cloned() { .. }` over a row of BITSPLITS
+            p.eat(); v = p.eat("id"); p.eat(); xs = p.eat("id")
+            for t in (".", "iter", "(", ")", ".", "cloned", "(", ")"):
+                p.eat(None, t)
+            body = self.braced()
+            return ("forlist", v, xs, body)
         if self.at("for"):
             p.eat()
             v = p.eat("id")
@@ -277,6 +299,16 @@ class SP:
             e = p.expr()
             p.eat("op", ";")
             return ("assign", v, e)
+        if k == "id" and v == "self" and p.peek(1) == ("op", ".") and p.peek(3) == ("op", "=") and p.peek(4) != ("op", "="):
+            p.eat(); p.eat(); f = p.eat("id"); p.eat()
+            e = p.expr()
+            p.eat("op", ";")
+            return ("assign", f"self_{f}", e)
+        if k == "id" and p.peek(1) == ("op", "-") and p.peek(2) == ("op", "="):
+            p.eat(); p.eat(); p.eat()
+            e = p.expr()
+            p.eat("op", ";")
+            return ("assign", v, f"({v} - {e})")
         if k == "id" and p.peek(1) == ("op", "+") and p.peek(2) == ("op", "="):
             p.eat(); p.eat(); p.eat()
             e = p.expr()
@@ -303,6 +335,8 @@ def assigned(stmts):
                 out |= assigned(s[2])
         elif s[0] == "for":
             out |= assigned(s[4])
+        elif s[0] == "forlist":
+            out |= assigned(s[3])
     return out
 
 class Gen:
@@ -324,9 +358,10 @@ class Gen:
     def cond(self, c):
         return f"({c} = true)" if c in self.boolvars else c
     def ty(self, x):
-        return dict(self.params).get(x, "Nat")
+        return dict(self.params).get(x, "List Nat" if x == "bitsplits" else "Nat")
     def comp(self, stmts, scope, tail):
         """Lean term for the statement list; `tail`: term used when control falls off the end (None: must not)"""
+        scope = list(dict.fromkeys(scope))        # a shadowing `let` keeps one entry
         if not stmts:
             if tail is None:
                 raise TieError(f"{self.name}: control falls off the end of a block that must return")
@@ -373,6 +408,24 @@ class Gen:
             for c, b in reversed(arms):
                 t = f"(if {self.cond(c)} then {self.comp(b + rest, scope, tail)} else {t})"
             return t
+        if k == "forlist":
+            _, v, xs, body = s
+            self.nloops += 1
+            idx = self.nloops
+            fname = f"{self.name}_loop{idx}"
+            restv = f"rest{idx}"
+            muts = [x for x in scope if x in assigned(body)]
+            immut = [x for x in scope if x not in muts and x != xs]
+            after = self.comp(rest, scope, tail)
+            cont = f"({fname} {' '.join(immut)} {restv} {' '.join(muts)})".replace("  ", " ")
+            bodyt = self.comp(body, scope + [restv, v], cont)
+            sig = " ".join(f"({x} : {self.ty(x)})" for x in immut)
+            mty = " → ".join(self.ty(x) for x in muts)
+            arrow = f"List Nat → {mty + ' → ' if muts else ''}{self.ret}"
+            pats0 = ", ".join(["[]"] + muts)
+            pats1 = ", ".join([f"{v} :: {restv}"] + muts)
+            self.defs.append(f"def {fname} {sig} : {arrow}\n  | {pats0} => {after}\n  | {pats1} => {bodyt}")
+            return f"({fname} {' '.join(immut)} {xs} {' '.join(muts)})".replace("  ", " ")
         if k == "for":
             _, v, lo, hi, body = s
             self.nloops += 1
@@ -464,8 +517,31 @@ def gen_remove(src, W, suffix):
         out.append(f"def remove_{arm}_{suffix} {sig} : Except String ((Bool × Nat) × Array Nat) := {top}")
     return out
 
+def gen_tiny_contains(src, W, suffix):
+    ty = "u64" if W == 64 else "u32"
+    out = []
+    m = re.search(r'\nfn mask\(bits: usize\) -> %s \{' % ty, src)
+    if not m:
+        raise TieError(f"cannot find mask ({suffix})")
+    mp = LP(lex(body_of(src, m.end() - 1)[0]), W, set(), suffix)
+    out.append(f"def mask_{suffix} (bits : Nat) : Nat := {mp.expr()}")
+    m = re.search(r'\n    fn contains\(mut self, e: %s\) -> bool \{' % ty, src)
+    if not m:
+        raise TieError(f"cannot find Tiny::contains ({suffix})")
+    sp = SP(lex(body_of(src, m.end() - 1)[0]), W, suffix)
+    sp.p.fnames = set()
+    stmts = sp.block()
+    if sp.p.peek()[0] != "eof":
+        raise TieError(f"Tiny::contains: trailing tokens {sp.p.peek()}")
+    params = [("self_sz", "Nat"), ("self_bits", "Nat"), ("e", "Nat")]
+    g = Gen(f"tiny_contains_{suffix}", params, "Bool", pure=True, props=sp.p.props)
+    top = g.comp(stmts, [x for x, _ in params], None)
+    out += g.defs
+    out.append(f"def tiny_contains_{suffix} (self_sz : Nat) (self_bits : Nat) (e : Nat) : Bool := {top}")
+    return out
+
 def gen_loops(s64, s32):
-    out = ["import TinysetModel.Generated.Fns",
+    out = ["import TinysetModel.Generated.Fns", "import TinysetModel.Generated.Consts",
            "/-! GENERATED by /verif/tools/gen_loops.py from src/setu64.rs and src/setu32.rs — do not edit.",
            "The Robin-Hood primitives `p_lookfor`, `p_insert`, `p_remove` translated statement by statement (see the",
            "translator for the scheme); `Proofs/Loops.lean` proves the model's `RH.lookfor/pinsert/premove` compute these. -/",
@@ -492,6 +568,7 @@ def gen_loops(s64, s32):
         out += gen_fn(src, W, suffix, "p_remove", r'\nfn p_remove\(k: %s, a: &mut \[%s\], offset: %s\) -> bool \{' % (ty, ty, ty), P, "Except String (Bool × Array Nat)")
         out += gen_contains(src, W, suffix)
         out += gen_remove(src, W, suffix)
+        out += gen_tiny_contains(src, W, suffix)
     out.append("end Gen")
     return "\n".join(out) + "\n"
 
